@@ -77,12 +77,19 @@ def main():
         meta["caught_by"] = [c for c, v in caught.items() if v["exit"] == 1]
         keep = confirmed
         readme = os.path.join(mdir, "README.txt")
-        meta["needs"] = open(readme).read().strip() if os.path.exists(readme) else ""
+        old = os.path.join(mdir, "meta.json")
+        if os.path.exists(readme):
+            meta["needs"] = open(readme).read().strip()
+        elif os.path.exists(old):
+            meta["needs"] = json.load(open(old)).get("needs", "")
+        else:
+            meta["needs"] = ""
         if keep:
             dst = os.path.join(ROOT, "seeded", sid)
             os.makedirs(dst, exist_ok=True)
-            shutil.copy(patch, os.path.join(dst, "patch.diff"))
-            shutil.copy(demo, os.path.join(dst, "demo.py"))
+            if os.path.abspath(dst) != os.path.abspath(mdir):
+                shutil.copy(patch, os.path.join(dst, "patch.diff"))
+                shutil.copy(demo, os.path.join(dst, "demo.py"))
             with open(os.path.join(dst, "meta.json"), "w") as f:
                 json.dump(meta, f, indent=1)
         print(json.dumps({k: meta[k] for k in ("id", "confirmed", "caught_by")}, indent=None))
